@@ -48,14 +48,14 @@ const (
 
 // TestOpts are the five test options.
 type TestOpts struct {
-	Message *string        // z.Message
-	MsgFunc *string        // z.MessageFunc whose function sets exactly this text
+	Message *string // z.Message
+	MsgFunc *string // z.MessageFunc whose function sets exactly this text
 	// MsgFuncReads: the MessageFunc appends what it reads from the issue it is given (code, type, params, and the path when
 	// no IssuePath is set), so a formatter that is handed a half-initialised or foreign issue becomes visible
 	MsgFuncReads bool
-	Code    *string        // z.IssueCode
-	Path    *string        // z.IssuePath
-	Params  map[string]any // z.Params
+	Code         *string        // z.IssueCode
+	Path         *string        // z.IssuePath
+	Params       map[string]any // z.Params
 	// Order in which the options are passed (indices into {Message,MsgFunc,Code,Path,Params}); nil = canonical order
 	Order []int
 }
@@ -228,6 +228,10 @@ type Node struct {
 	// ViaMerge (Struct only): the real schema is assembled as part1.Merge(part2, part3): fields, struct-level tests and
 	// post-transforms are split over three partial schemas in order. Documented to be the same schema.
 	ViaMerge bool
+	// MergeCuts: where the field (visit order), test and post-transform lists are cut: part1 = [0,a), part2 = [a,b), part3 = [b,len).
+	// MergeTwo: only part1.Merge(part2) (all cuts have b == len).
+	MergeCuts [3][2]int
+	MergeTwo  bool
 }
 
 // CoercerSpec is a z.WithCoercer option: the coercer returns Mark (of the node's Go type) for any input, or an error when Fail.
